@@ -38,8 +38,12 @@ pub mod decode {
 pub mod encode {
 	use super::*;
 	#[derive(Debug)]
+	pub struct ValueWriteError;
+	#[derive(Debug)]
 	pub enum Error {
-		InvalidValueWrite(io::Error),
+		/// the real variant carries the I/O error; xt never looks inside, and owning an io::Error
+		/// here would put its drop glue into every instantiation of the transcoder
+		InvalidValueWrite(ValueWriteError),
 		UnknownLength,
 		InvalidDataModel(&'static str),
 		DepthLimitExceeded,
@@ -58,8 +62,8 @@ pub mod encode {
 	impl ModelErr for Error {
 		fn io(e: io::Error) -> Self {
 			// the payload is never inspected by xt; dropping it symbolically is what makes CBMC explode
-			std::mem::forget(e);
-			Error::UnknownLength
+			xtmodel::stash_io(e);
+			Error::InvalidValueWrite(ValueWriteError)
 		}
 		fn syntax() -> Self { Error::InvalidDataModel("model") }
 	}
